@@ -509,6 +509,10 @@ HBPcloseAID(accrec_t *access_rec)
     if (--(info->attached) == 0) {
         /* Flush the data if it's been modified */
         if (info->modified) {
+            /* the buffer holds the whole element: it goes back to its start
+               (filling the buffer left the element positioned at its end) */
+            if (Hseek(info->buf_aid, 0, DF_START) == FAIL)
+                HGOTO_ERROR(DFE_SEEKERROR, FAIL);
             if (Hwrite(info->buf_aid, info->length, info->buf) == FAIL)
                 HGOTO_ERROR(DFE_WRITEERROR, FAIL);
         } /* end if */
